@@ -3,6 +3,7 @@
    signatures. *)
 From Coq Require Import ZArith List Bool Lia ZifyBool.
 Import ListNotations.
+From Cffi Require C03.CExpr C03.Gen.
 From Cffi Require Import C13.Model.
 Open Scope Z_scope.
 
@@ -105,8 +106,18 @@ Proof. intros. unfold wrapU. apply Z.mod_small. lia. Qed.
 Lemma wrapU_range : forall s v, wf_size s -> 0 <= wrapU s v < 2 ^ (8 * s).
 Proof. intros s v [-> | [-> | [-> | ->]]]; unfold wrapU; apply Z.mod_pos_bound; cbn; lia. Qed.
 
-Lemma u_bound_val : forall s, wf_size s -> u_bound s = 2 ^ (8 * s) - 1.
+(* the regenerated source bounds, evaluated with C semantics, for every instantiated size *)
+Lemma u_hi_val : forall s, wf_size s -> u_hi s = 2 ^ (8 * s) - 1.
 Proof. intros s [-> | [-> | [-> | ->]]]; vm_compute; reflexivity. Qed.
+Lemma i_hi_val : forall s, wf_size s -> i_hi s = 2 ^ (8 * s - 1) - 1.
+Proof. intros s [-> | [-> | [-> | ->]]]; vm_compute; reflexivity. Qed.
+Lemma i_lo_val : forall s, wf_size s -> i_lo s = - 2 ^ (8 * s - 1).
+Proof. intros s [-> | [-> | [-> | ->]]]; vm_compute; reflexivity. Qed.
+(* shape of the regenerated tests: `tmp > hi || tmp < lo` and `tmp > hi`, the sizes they are instantiated at *)
+Lemma source_checks_shape :
+  map fst C03.Gen.signed_checks = [C03.CExpr.BGt; C03.CExpr.BLt] /\ map fst C03.Gen.unsigned_checks = [C03.CExpr.BGt] /\
+  map snd C03.Gen.signed_insts = [8; 16; 32; 64] /\ map snd C03.Gen.unsigned_insts = [8; 16; 32; 64].
+Proof. vm_compute. repeat split; reflexivity. Qed.
 
 Lemma wrapU_m1 : forall s, wf_size s -> wrapU s (-1) = 2 ^ (8 * s) - 1.
 Proof. intros s [-> | [-> | [-> | ->]]]; vm_compute; reflexivity. Qed.
@@ -122,6 +133,7 @@ Lemma signed_agree : forall s x, wf_size s ->
   api_conv_prim (PI s true) x = ffi_conv_prim (PI s true) x.
 Proof.
   intros s x W. cbn. unfold to_c_i, wrapper_check, wrapper_check_s.
+  rewrite (i_hi_val s W), (i_lo_val s W).
   pose proof (pow_bounds s W) as (P1 & P2 & P3 & P4).
   destruct (longlong_spec x) as [[Hp Hr] | [e [Hp Hr]]]; rewrite Hp.
   - unfold LLMIN, LLMAX in Hr.
@@ -139,7 +151,7 @@ Lemma unsigned_agree : forall s x, wf_size s ->
 Proof.
   intros s x W. cbn. unfold to_c_u, wrapper_check, wrapper_check_s.
   pose proof (pow_bounds s W) as (P1 & P2 & P3 & P4).
-  rewrite (u_bound_val s W).
+  rewrite (u_hi_val s W).
   destruct (ulonglong_spec x) as [[Hp Hr] | [e [Hp Hr]]]; rewrite Hp.
   - unfold ULLMAX in Hr.
     destruct (2 ^ (8 * s) - 1 <? rval (my_as_ulonglong x)) eqn:B; cbn.
@@ -459,4 +471,65 @@ Proof.
   - pose proof (chain_inside _ _ _ CH) as I. eapply Forall_impl; [| exact I]. cbn. intros [o n] ?. cbn in *. lia.
   - eapply chain_disjoint; exact CH.
   - repeat split; try assumption; try lia; exact Mf.
+Qed.
+
+(* ================================================================== 4. the variadic part *)
+
+Theorem variadic_rejects_non_cdata : forall x, is_cdata x = false -> variadic_conv x = CErr TypeError.
+Proof. intros [] H; cbn in *; try reflexivity; discriminate. Qed.
+
+(* the ctype cdata_call hands to libffi is C's default argument promotion of the cdata's type — except float *)
+Theorem variadic_promotion_is_C : forall p, p <> PF32 -> variadic_type p = c_default_promotion p.
+Proof. intros [] H; cbn; try reflexivity; congruence. Qed.
+
+Theorem variadic_float_refuted : variadic_type PF32 <> c_default_promotion PF32.
+Proof. discriminate. Qed.
+
+(* integer value of a primitive cdata (what int(cd) gives) *)
+Definition cdata_int_value (p : prim) (bits : Z) : Z :=
+  match p with PI s true => wrapS s bits | _ => bits end.
+
+Definition narrow (p : prim) : Prop :=
+  p = PB \/ p = PC 1 \/ p = PC 2 \/ exists s sg, (s = 1 \/ s = 2) /\ p = PI s sg.
+
+(* a cdata narrower than int arrives as an int holding the same value *)
+Theorem variadic_narrow_promoted : forall p bits b64, narrow p -> 0 <= bits < 2 ^ (8 * prim_size p) ->
+  let v := cdata_int_value p bits in
+  variadic_conv (PyCPrim p bits b64) = COk (CInt 4 (wrapU 4 v)) /\ wrapS 4 (wrapU 4 v) = v /\ - 2 ^ 15 <= v < 2 ^ 16.
+Proof.
+  intros p bits b64 N B.
+  assert (W4 : wf_size 4) by (right; right; left; reflexivity).
+  assert (R : forall v, - 2 ^ 15 <= v < 2 ^ 16 ->
+     ffi_conv_prim (PI 4 true) (PyIntLike v) = COk (CInt 4 (wrapU 4 v)) /\ wrapS 4 (wrapU 4 v) = v).
+  { intros v Hv. cbn. unfold pylong_as_longlong, LLMIN, LLMAX.
+    replace ((- 2 ^ 63 <=? v) && (v <=? 2 ^ 63 - 1)) with true by (symmetry; lia). cbn [rpend rval okr].
+    rewrite (wrapS_id 4 v W4) by (cbn; lia). rewrite Z.eqb_refl. split; [reflexivity |].
+    unfold wrapS, wrapU. rewrite Z.mod_mod by (cbn; lia).
+    apply (wrapS_id 4 v W4). cbn; lia. }
+  assert (E : forall q v, nb_int (PyCPrim q bits b64) = Some (inl v) -> is_floatlike (PyCPrim q bits b64) = false ->
+     ffi_conv_prim (PI 4 true) (PyCPrim q bits b64) = ffi_conv_prim (PI 4 true) (PyIntLike v)).
+  { intros q v H1 H2. cbn [ffi_conv_prim]. unfold my_as_longlong. rewrite H2, H1. reflexivity. }
+  destruct N as [-> | [-> | [-> | [s [sg [Hs ->]]]]]]; cbn [prim_size] in B; cbn [cdata_int_value].
+  - destruct (R bits ltac:(cbn in B; lia)) as [R1 R2].
+    split; [| split; [exact R2 | cbn in B; lia]]. cbn [variadic_conv variadic_type]. rewrite (E PB bits); auto.
+  - destruct (R bits ltac:(cbn in B; lia)) as [R1 R2].
+    split; [| split; [exact R2 | cbn in B; lia]]. cbn [variadic_conv variadic_type].
+    replace (1 <? 4) with true by reflexivity. rewrite (E (PC 1) bits); auto.
+  - destruct (R bits ltac:(cbn in B; lia)) as [R1 R2].
+    split; [| split; [exact R2 | cbn in B; lia]]. cbn [variadic_conv variadic_type].
+    replace (2 <? 4) with true by reflexivity. rewrite (E (PC 2) bits); auto.
+  - assert (Ws : wf_size s) by (destruct Hs as [-> | ->]; [left | right; left]; reflexivity).
+    assert (V : - 2 ^ 15 <= (if sg then wrapS s bits else bits) < 2 ^ 16).
+    { destruct sg; [| destruct Hs as [-> | ->]; cbn in B; lia].
+      pose proof (wrapS_range s bits Ws). destruct Hs as [-> | ->]; cbn in *; lia. }
+    assert (U : wrapU s bits = bits) by (apply wrapU_id; exact B).
+    destruct (R _ V) as [R1 R2].
+    assert (C : cdata_int_value (PI s sg) bits = (if sg then wrapS s bits else bits)) by (destruct sg; reflexivity).
+    cbn [cdata_int_value] in *. 
+    split; [| split].
+    + cbn [variadic_conv variadic_type]. replace (s <? 4) with true by (destruct Hs as [-> | ->]; reflexivity).
+      rewrite (E (PI s sg) (if sg then wrapS s bits else bits)); [destruct sg; exact R1 | | reflexivity].
+      cbn. rewrite U. reflexivity.
+    + destruct sg; exact R2.
+    + destruct sg; exact V.
 Qed.
